@@ -102,7 +102,7 @@ EXCLUDE: dict = {
 
 
 def plan(tier):
-    return [{"n": 500, "depth": 2}] * 16 if tier == "quick" else [{"n": 6000, "depth": 2}] * 32 + [{"n": 1500, "depth": 3}] * 16
+    return [{"n": 500, "depth": 2}] * 16 if tier == "quick" else [{"n": 4000, "depth": 2}] * 32 + [{"n": 1000, "depth": 3}] * 16
 
 
 def run_shard(spec, seed, res, only_bucket=None):
